@@ -186,6 +186,9 @@ func genProbe(t *rapid.T, label string) (*node, probeExp) {
 		v := strVal.Draw(t, label+"strDef")
 		add("strDef", v)
 		exp["strDef"] = v
+	} else if rapid.IntRange(0, 3).Draw(t, label+"stray") == 0 {
+		// the attribute itself is not configured (default applies); only an unrelated deeper key exists under its name
+		n.Fields = append(n.Fields, field{Name: "strDef", Sub: &node{Fields: []field{{Name: "strayKey", Val: "x"}}}})
 	}
 	if opt("flagOn") {
 		v := rapid.SampledFrom([]string{"true", "false", "True", "FALSE", "1", "0", "t", "F"}).Draw(t, label+"flag")
@@ -854,8 +857,10 @@ func injectFault(t *rapid.T, c config, m map[string]string) (string, bool) {
 		return kind, true
 	case "absent-property":
 		probe.del("strDef")
-		probe.Fields = append(probe.Fields, field{Name: "strDef", Val: "${noSuchProperty}"}) // not Attr: rendered literally
-		return kind, true
+		// a key that does not exist at all, or one that names a section (sub-tree) rather than a property
+		ref := rapid.SampledFrom([]string{"${noSuchProperty}", "${appender}", "${logger}", "${appender.p1}", "${logger.lg1}"}).Draw(t, "absentRef")
+		probe.Fields = append(probe.Fields, field{Name: "strDef", Val: ref}) // not Attr: rendered literally
+		return kind + ":" + ref, true
 	case "conflicting-keys":
 		return kind, false // applied on the rendered map
 	default: // missing-type
